@@ -2,9 +2,12 @@
 package c19
 
 import (
+	"os"
+
 	"bytes"
 	"context"
 	"fmt"
+	flags "github.com/jessevdk/go-flags"
 	"io"
 	"log"
 	"strings"
@@ -28,7 +31,7 @@ func TestMain(m *testing.M) {
 	log.SetOutput(io.Discard)
 	kit.Main(m, "C19", "exploration",
 		"request sequences over {get-session valid (2 partitions), get-session with empty id, encrypt (empty / non-empty data), decrypt genuine (a record produced earlier on this or another stream for the partition), decrypt foreign-partition, decrypt corrupt, decrypt with empty record, empty request (no oneof), end of stream}: "+
-			"EXHAUSTIVE up to length 4 (thorough 5) through an in-memory AppEncryption_SessionServer against a sidecar built with the real NewAppEncryption (memory metastore, static KMS), rapid sequences up to length 40 on 1-8 concurrent streams sharing one AppEncryption, 2-16 streams whose get-sessions hit a FRESHLY built NewAppEncryption in parallel (every record they are given must decrypt on a later stream of its partition and on no other), a rapid state machine of streams opened / used / left open / ended among short complete streams of the same and other partitions with the sidecar's session cache off or on with 1-4 slots (a stream that completed get-session keeps round-tripping until the client ends it), 4-16 goroutines each running 5-30 complete streams for partitions the process has never seen, "+
+			"EXHAUSTIVE up to length 4 (thorough 5) through an in-memory AppEncryption_SessionServer against a sidecar built with the real NewAppEncryption (memory metastore, static KMS), rapid sequences up to length 40 on 1-8 concurrent streams sharing one AppEncryption, 2-16 streams whose get-sessions hit a FRESHLY built NewAppEncryption in parallel (every record they are given must decrypt on a later stream of its partition and on no other), a rapid state machine of streams opened / used / left open / ended among short complete streams of the same and other partitions with the sidecar's session cache off or on with 1-4 slots (a stream that completed get-session keeps round-tripping until the client ends it), 4-16 goroutines each running 5-30 complete streams for partitions the process has never seen, pairs of streams whose partition ids differ only in control characters / case / blanks (two partitions: each is refused the other's records), the sidecar's crypto policy built from generated values of the documented ASHERAH_* environment variables (each value lands in its own option), "+
 			"a second service built around a harness-owned SessionFactory for the SDK differential (records produced by the stream decrypt through an SDK session and vice versa), a sample through real gRPC over bufconn, and a native fuzz target (thorough). "+
 			"Oracle: a three-state protocol model (no session / get-session rejected / session open): exactly one Send per received request, in order; encrypt/decrypt before a successful get-session and a second get-session get error responses; with a session open encrypt returns a record that decrypts to the data, decrypt of a genuine record returns its payload, foreign / corrupt / empty records get error responses; Session returns nil at end of stream without panicking in every state. "+
 			"One evaluation = one sequence on one stream. Non-trivial = contains a rejected or repeated get-session or a decrypt of a non-genuine record followed by at least one more event; enumerated sequences are distinct by construction",
@@ -948,5 +951,124 @@ func TestManyStreamsFreshPartitions(t *testing.T) {
 			return map[string]any{"concurrent_goroutines": workers, "streams_each_for_a_new_partition": perWorker, "session_cache": opts.EnableSessionCaching}
 		})
 		kit.Rec.Label("many-streams-fresh-partitions")
+	})
+}
+
+// TestSidecarPartitionIDsVerbatim: the partition id of get-session reaches the SDK as the client
+// sent it. Two streams whose ids differ only in characters a sanitiser might touch (control
+// characters, case, blanks) are two partitions: each round-trips its own records and gets an
+// error response for the other's.
+func TestSidecarPartitionIDsVerbatim(t *testing.T) {
+	kit.Check(t, 120, 4000, func(t *rapid.T) {
+		base := rapid.SampledFrom([]string{"acct-1", "Tenant", "x", "a b", "é"}).Draw(t, "base")
+		variant := rapid.SampledFrom([]func(string) string{
+			func(s string) string { return s + "\n" },
+			func(s string) string { return "\t" + s },
+			func(s string) string { return s[:1] + "\x1b" + s[1:] },
+			func(s string) string { return s + "\r" },
+			func(s string) string { return strings.ToUpper(s) + "\x00" },
+			func(s string) string { return s + " " },
+			func(s string) string { return s + "​" },
+		}).Draw(t, "variant")
+		p, q := base, variant(base)
+		opts := &server.Options{ServiceName: "svc", ProductID: "prod", Metastore: "memory", KMS: "static", ExpireAfter: 24 * time.Hour, CheckInterval: time.Hour}
+		if rapid.Bool().Draw(t, "sessionCache") {
+			opts.EnableSessionCaching, opts.SessionCacheMaxSize, opts.SessionCacheDuration = true, 4, time.Hour
+		}
+		app := server.NewAppEncryption(opts)
+		bad := func(msg string) {
+			kit.Rec.Violation(msg)
+			t.Fatalf("C19 violated [NewAppEncryption, partition ids %q and %q, session cache %v]: %s", p, q, opts.EnableSessionCaching, msg)
+		}
+		sp, msg := openStream(app, p)
+		if msg != "" {
+			bad(msg)
+		}
+		if msg := sp.roundTrip("p"); msg != "" {
+			bad(msg)
+		}
+		sq, msg := openStream(app, q)
+		if msg != "" {
+			bad(msg)
+		}
+		if msg := sq.roundTrip("q"); msg != "" {
+			bad(msg)
+		}
+		// each asks for the other's record
+		for _, x := range []struct {
+			who, whose *liveStream
+		}{{sq, sp}, {sp, sq}} {
+			resp, msg := x.who.ask(&pb.SessionRequest{Request: &pb.SessionRequest_Decrypt{Decrypt: &pb.Decrypt{DataRowRecord: cloneDRR(x.whose.recs[0].drr)}}})
+			if msg != "" {
+				bad(msg)
+			}
+			if !isErr(resp) {
+				bad(fmt.Sprintf("the stream for partition %q decrypted a record produced for partition %q: %v", x.who.part, x.whose.part, resp))
+			}
+		}
+		if msg := sp.end(); msg != "" {
+			bad(msg)
+		}
+		if msg := sq.end(); msg != "" {
+			bad(msg)
+		}
+		kit.Rec.Case(fmt.Sprintf("ids|%q|%q|%v", p, q, opts.EnableSessionCaching), true, func() any {
+			return map[string]any{"partition_ids": []string{p, q}, "session_cache": opts.EnableSessionCaching}
+		})
+		kit.Rec.Label("sidecar-partition-id-pairs")
+	})
+}
+
+// TestOptionsFromEnvironment: the sidecar's crypto policy is built from what the operator
+// configured. Every option is set through its documented ASHERAH_* environment variable to a
+// generated value of its own; parsing as main() does and building the policy must put each value
+// where it belongs (and nowhere else).
+func TestOptionsFromEnvironment(t *testing.T) {
+	kit.Check(t, 60, 1500, func(t *rapid.T) {
+		expire := time.Duration(rapid.IntRange(1, 5000).Draw(t, "expireMinutes")) * time.Minute
+		check := time.Duration(rapid.IntRange(1, 5000).Draw(t, "checkSeconds")) * time.Second
+		sessDur := time.Duration(rapid.IntRange(1, 5000).Draw(t, "sessionHours")) * time.Hour
+		sessMax := rapid.IntRange(1, 100000).Draw(t, "sessionCacheMax")
+		env := map[string]string{
+			"ASHERAH_SERVICE_NAME": "svc-" + fmt.Sprint(sessMax), "ASHERAH_PRODUCT_NAME": "prod-" + fmt.Sprint(sessMax),
+			"ASHERAH_EXPIRE_AFTER": expire.String(), "ASHERAH_CHECK_INTERVAL": check.String(),
+			"ASHERAH_METASTORE_MODE": "memory", "ASHERAH_KMS_MODE": "static",
+			"ASHERAH_SESSION_CACHE_MAX_SIZE": fmt.Sprint(sessMax), "ASHERAH_SESSION_CACHE_DURATION": sessDur.String(),
+			"ASHERAH_ENABLE_SESSION_CACHING": "true",
+		}
+		for k, v := range env {
+			os.Setenv(k, v)
+		}
+		defer func() {
+			for k := range env {
+				os.Unsetenv(k)
+			}
+		}()
+		opts := new(server.Options)
+		if _, err := flags.NewParser(opts, flags.IgnoreUnknown).ParseArgs(nil); err != nil {
+			t.Fatalf("harness: parsing options from the environment failed: %v", err)
+		}
+		pol := server.NewCryptoPolicy(opts)
+		bad := func(format string, args ...any) {
+			msg := fmt.Sprintf(format, args...)
+			kit.Rec.Violation(msg)
+			t.Fatalf("C19 violated [sidecar options from ASHERAH_* variables %v]: %s", env, msg)
+		}
+		if opts.ServiceName != env["ASHERAH_SERVICE_NAME"] || opts.ProductID != env["ASHERAH_PRODUCT_NAME"] {
+			bad("service / product = %q / %q", opts.ServiceName, opts.ProductID)
+		}
+		if pol.ExpireKeyAfter != expire {
+			bad("the crypto policy's key lifetime is %s, ASHERAH_EXPIRE_AFTER says %s", pol.ExpireKeyAfter, expire)
+		}
+		if pol.RevokeCheckInterval != check {
+			bad("the crypto policy's revoke-check interval is %s, ASHERAH_CHECK_INTERVAL says %s", pol.RevokeCheckInterval, check)
+		}
+		if !pol.CacheSessions || pol.SessionCacheMaxSize != sessMax || pol.SessionCacheDuration != sessDur {
+			bad("session cache settings are on=%v max=%d duration=%s, configured on=true max=%d duration=%s", pol.CacheSessions, pol.SessionCacheMaxSize, pol.SessionCacheDuration, sessMax, sessDur)
+		}
+		kit.Rec.Case(fmt.Sprintf("env|%s|%s|%s|%d", expire, check, sessDur, sessMax), true, func() any {
+			return map[string]any{"environment": env}
+		})
+		kit.Rec.Label("options-from-environment")
 	})
 }
